@@ -6,7 +6,11 @@
    from outside the call -
 
      out      "ret" the call returned, "panic" a panic was recovered around it, "exit" the child
-              process ended inside the call (write-ahead marker without an end marker)
+              process ended inside the call (write-ahead marker without an end marker), "hang" the
+              child was still alive inside the call, without any progress, when the time limit of
+              the driver ran out (the driver killed it; see fam_term.go for the limit).  For a
+              nested cell (from # "top") the markers and the recover sit around the NESTED call,
+              inside the Write / String / MarshalText / LogValue it is issued from
      status   exit status of the child when out = "exit"
      pv       "msg" when the recovered panic value is a string equal to the WHOLE message
               (whatever its size), "other" otherwise
@@ -14,11 +18,16 @@
               found there was written BEFORE the process ended / the panic was recovered);
               nothing can be found where the cell's destination class has no recording writer
               for the severity (Term!Recording) - the "written first" clause is skipped there
+     oout     nested cells: how the OUTER call (a call of severity Always or Info, Term!OuterSeverity)
+              ended - "ret", "panic" (recovered around it), "exit" (the process ended inside it after
+              the nested call had returned); "none" for top-level cells and where the nested call
+              itself ended the process.  The statement's "no other severity ever panics or exits"
+              applies to it (OuterTerminates)
      rec      "complete" (decoded by independent decoders; carries the whole message) / "none" /
               "incomplete:<why>" / "skip" (severity other than Panic/Fatal)
 
    This module is a monitor: it consumes one line per step, rebuilds the cell, and evaluates the
-   property predicates of Term (WriteThenTerminateP, OnlyWhenStatedP, FinalMatchesStatementP -
+   property predicates of Term (WriteThenTerminateP, OnlyWhenStatedP, EndsP, FinalMatchesStatementP -
    the same operators the exhaustive model is checked against) on the OBSERVED final state.
    A line that fails is collected in `bad` with the names of the failed predicates and the
    outcome the specification expected; `missing` counts cells of the table that were never
@@ -37,8 +46,8 @@ VARIABLES i, bad
 TLog == ndJsonDeserialize(TraceFile)
 
 CellOf(e) == [ep |-> e.ep, recv |-> e.recv, r |-> e.r, L |-> e.L, ni |-> e.ni, ia |-> e.ia,
-              testing |-> e.testing, fmt |-> e.fmt, base |-> e.base, inp |-> e.inp,
-              dst |-> e.dst, size |-> e.size]
+              testing |-> e.testing, start |-> e.start, fmt |-> e.fmt, base |-> e.base, inp |-> e.inp,
+              dst |-> e.dst, size |-> e.size, from |-> e.from]
 FinOf(e) == [out |-> e.out, status |-> e.status, pv |-> e.pv]
 
 \* the record counts as written only if the independent decoder found it complete
@@ -46,7 +55,8 @@ WrittenOf(e) == IF e.rec = "complete" THEN e.nrec ELSE 0
 
 LineBad(e) ==
     IF ~IsCell(CellOf(e)) THEN {"NotACell"}
-    ELSE Failed(CellOf(e), FinOf(e), WrittenOf(e))
+    ELSE Failed(CellOf(e), FinOf(e), WrittenOf(e)) \cup
+         (IF OuterReturnsP(CellOf(e), e.oout) THEN {} ELSE {"OuterTerminates"})
 
 TInit == /\ i = 1 /\ bad = {}
          /\ cell = CellSeq[1]
@@ -71,12 +81,16 @@ TSpec == TInit /\ [][TNext]_<<i, bad, cell, pc, written, fin>>
 \* cells of the table never observed: the table has NCells cells, the orchestrator hands over a log
 \* whose lines have pairwise different coordinates, so it is the number of lines that are cells
 \* of the table that counts (building the set of a million observed cells is quadratic in TLC)
+\* (counted and collected in two halves: TLC refuses to build a set from more than a million elements at once)
+Half == Len(TLog) \div 2
+CellLines(ids) == Cardinality({k \in ids : IsCell(CellOf(TLog[k]))})
 Missing == IF ExpectAll
-           THEN NCells - Cardinality({k \in 1..Len(TLog) : IsCell(CellOf(TLog[k]))})
+           THEN NCells - (CellLines(1..Half) + CellLines((Half + 1)..Len(TLog)))
            ELSE 0
 
 \* Keys whose observed calls did not all end the same way (out, status, pv)
-ObsPairs == {<<Key(CellOf(TLog[k])), FinOf(TLog[k])>> : k \in 1..Len(TLog)}
+ObsPairsOf(ids) == {<<Key(CellOf(TLog[k])), FinOf(TLog[k])>> : k \in ids}
+ObsPairs == ObsPairsOf(1..Half) \cup ObsPairsOf((Half + 1)..Len(TLog))
 Split == IF Cardinality(ObsPairs) = Cardinality({p[1] : p \in ObsPairs}) THEN <<>>
          ELSE SetToSeq({p[1] : p \in {p \in ObsPairs : \E q \in ObsPairs : q[1] = p[1] /\ q # p}})
 
